@@ -415,6 +415,14 @@ func extra(m *drv.Module) error {
 		m.Extra = map[string]string{}
 	}
 	m.Extra["vdriver/x_svc.go"] = svcDriverSrc
+	// drv.Registry's zz_verif.go imports vdriver even when the package has nothing to
+	// register (a file with services and typedefs only): keep such a package compiling
+	for _, d := range m.PkgDirs {
+		p := filepath.Join(m.GenDir, d, "zz_verif.go")
+		if b, err := os.ReadFile(p); err == nil && !bytes.Contains(b, []byte("vdriver.Register")) {
+			os.WriteFile(p, append(b, []byte("\nvar _ = vdriver.Hooks\n")...), 0o644)
+		}
+	}
 	return writeHandlers(m)
 }
 
